@@ -180,9 +180,24 @@ def weights_close(a, b):
         x = dict(a[v]) if v < len(a) else {}
         y = dict(b[v]) if v < len(b) else {}
         for bn in set(x) | set(y):
-            if abs(x.get(bn, 0.0) - y.get(bn, 0.0)) > 1e-4:
+            if abs(x.get(bn, 0.0) - y.get(bn, 0.0)) > wtol(x.get(bn, 0.0), y.get(bn, 0.0)):
                 return False
     return True
+
+
+def wtol(a, b):
+    """1e-4, or one unit in the last place of binary16 (the SE vertex format stores weights as halves)"""
+    return max(1e-4, max(abs(a), abs(b)) * 2.0 ** -10)
+
+
+def weight_bad_vertices(a, b):
+    bad = []
+    for v in range(max(len(a), len(b))):
+        x = dict(a[v]) if v < len(a) else {}
+        y = dict(b[v]) if v < len(b) else {}
+        if any(abs(x.get(bn, 0.0) - y.get(bn, 0.0)) > wtol(x.get(bn, 0.0), y.get(bn, 0.0)) for bn in set(x) | set(y)):
+            bad.append(v)
+    return bad
 
 
 def white(cols):
@@ -317,20 +332,6 @@ def evaluate_pipeline(case, d):
     return fails, known, True
 
 
-# known-finding classification ---------------------------------------------------------------------
-def classify(case, what, det, d):
-    """map a failure to a recorded finding when it is exactly that input class; None otherwise"""
-    st = {s["stage"]: s for s in d.get("stages", [])} if d else {}
-    orig = st.get("orig", {}).get("d")
-    if "share a name" in what and orig:
-        # RenameDuplicateShapes accepted a candidate X_k that another child already carries, or empty names
-        names = [s["name"] for s in orig["shapes"]]
-        after = det.get("names", [])
-        if any(n in names or n == "" for n in after) or any(n.rsplit("_", 1)[0] in names for n in after if "_" in n):
-            return "C12-rename-candidate-taken"
-    return None
-
-
 # ------------------------------------------------------------------------------------------------
 def run_parallel(binp, cases, chunk, timeout, env=None):
     chunks = [cases[i:i + chunk] for i in range(0, len(cases), chunk)]
@@ -341,3 +342,361 @@ def run_parallel(binp, cases, chunk, timeout, env=None):
         if crash is None and (l is None or l.strip() == ""):
             out[i] = vlib.run_cases_robust(binp, [FAM], [c], timeout_per_batch=timeout, env=env)[0]
     return out
+
+
+# ------------------------------------------------------------------------------------------------
+# names: the scene tree of a dump in the syntax of ocaml/d_convert.ml, and the property on it
+
+def build_tree(d):
+    """(tree text for the model, {node path: [(kind, name), ...]}) from the node table of a dump"""
+    nodes = d["nodes"]
+    used = set()
+
+    def find(name, parent):
+        for k, n in enumerate(nodes):
+            if k not in used and n["name"] == name and (n["parent"] or "") == (parent or ""):
+                used.add(k)
+                return n
+        return None
+
+    roots = [k for k, n in enumerate(nodes) if n["parent"] is None]
+    if not roots:
+        return None, {}
+    used.add(roots[0])
+    per_node = {}
+
+    def items(node, path, depth):
+        out, lst = [], []
+        for kid in node["kids"]:
+            if kid is None:
+                continue
+            kind, typ, nm = kid.split(":", 2)
+            if kind == "S":
+                out.append("s" + hexs(nm))
+                lst.append(("s", nm))
+            elif kind == "N":
+                sub = find(nm, node["name"])
+                inner = items(sub, path + (nm,), depth + 1) if (sub is not None and depth < 40) else ""
+                out.append("n" + hexs(nm) + "(" + inner + ")")
+                lst.append(("n", nm))
+            else:
+                out.append("n" + hexs(nm) + "()")
+                lst.append(("o", nm))
+        per_node[path] = lst
+        return ",".join(out)
+
+    txt = items(nodes[roots[0]], (), 0)
+    return txt, per_node
+
+
+def parse_tree(txt):
+    """{path: [(kind, name)]} from the model's output syntax"""
+    pos = [0]
+    per_node = {}
+
+    def hexrun():
+        st = pos[0]
+        while pos[0] < len(txt) and txt[pos[0]] in "0123456789abcdef":
+            pos[0] += 1
+        return bytes.fromhex(txt[st:pos[0]]).decode("latin-1")
+
+    def items(path):
+        lst = []
+        while pos[0] < len(txt) and txt[pos[0]] != ")":
+            k = txt[pos[0]]
+            pos[0] += 1
+            nm = hexrun()
+            if k == "s":
+                lst.append(("s", nm))
+            else:
+                lst.append(("n", nm))
+                if pos[0] < len(txt) and txt[pos[0]] == "(":
+                    pos[0] += 1
+                    items(path + (nm,))
+                    pos[0] += 1
+            if pos[0] < len(txt) and txt[pos[0]] == ",":
+                pos[0] += 1
+        per_node[path] = lst
+        return lst
+
+    items(())
+    return per_node
+
+
+def shape_names(per_node):
+    return {p: sorted(nm for k, nm in l if k == "s") for p, l in per_node.items() if any(k == "s" for k, _ in l)}
+
+
+def name_hypotheses(per_node):
+    """which hypotheses of C12_rename_distinct a tree violates, per node path"""
+    out = {}
+    for path, lst in per_node.items():
+        why = []
+        shapes = [nm for k, nm in lst if k == "s"]
+        alln = [nm for k, nm in lst]
+        if shapes.count("") > 1:
+            why.append("unnamed")
+        for x in set(shapes):
+            if x and any(n.startswith(x + "_") and n[len(x) + 1:].isdigit() and str(int(n[len(x) + 1:])) == n[len(x) + 1:] for n in alln):
+                why.append("candidate")
+                break
+        if len(path) >= 2 and len(set(shapes)) < len(shapes):
+            why.append("deep")
+        out[path] = why
+    return out
+
+
+RENAME_IDS = {"candidate": "C12-rename-candidate-taken", "unnamed": "C12-rename-unnamed-shapes", "deep": "C12-rename-deep-nodes-skipped"}
+
+
+def check_names(rep, case, before, after_impl, after_model, tag):
+    """before/after: {path: [(kind,name)]}.  Returns (n correspondence diffs, n spec failures, n known)"""
+    ncorr = nspec = nknown = 0
+    if after_model is not None and shape_names(after_model) != shape_names(after_impl):
+        ncorr += 1
+    hyp = name_hypotheses(before)
+    for path, names in shape_names(after_impl).items():
+        if len(set(names)) == len(names):
+            continue
+        why = hyp.get(path, [])
+        agrees = after_model is not None and shape_names(after_model).get(path) == names
+        if why and agrees:
+            for w in why[:1]:
+                rep.known_finding(RENAME_IDS[w], "%s %s: %s" % (tag, "/".join(path) or "<root>", names))
+                nknown += 1
+        else:
+            rep.violation("sibling shapes share a name after RenameDuplicateShapes although the hypotheses of C12_rename_distinct hold",
+                          {"case": case, "family": FAM, "node": "/".join(path), "names": names, "model_agrees": agrees})
+            nspec += 1
+    return ncorr, nspec, nknown
+
+
+# ------------------------------------------------------------------------------------------------
+# known-finding classification of pipeline failures
+
+def covered_vertices(le_shape):
+    """vertices whose weights AND bone indices the LE partitions carry"""
+    cov = set()
+    for p in le_shape.get("parts", []):
+        if p["hvw"] and p["hbi"] and p["nb"] > 0 and p["nw"] >= len(p["vmap"]) and p["nbi"] >= len(p["vmap"]):
+            cov |= set(p["vmap"])
+    return cov
+
+
+def classify_weights(st, label, s, t):
+    """s -> t is a pair whose weights differ; returns a known-finding id or None"""
+    into_se = t["type"] != "NiTriShape" and t["type"] != "NiTriStrips"
+    ws, wt = weights_of(s), weights_of(t)
+    bad = weight_bad_vertices(ws, wt)
+    if label == "conversion":
+        if into_se:
+            cov = covered_vertices(s)
+            if bad and all(v not in cov for v in bad):
+                return "C12-le2se-weights-from-partitions"
+        else:
+            # SE -> LE takes the weights from NiSkinData; a model that keeps them in the vertex data only loses them
+            sd = s.get("sdw", [])
+            if bad and all(not (sd[v] if v < len(sd) else []) or s["weights"][v] != sd[v] for v in bad) and sum(len(x) for x in sd) < sum(len(x) for x in s["weights"]):
+                return "C12-se2le-weights-need-skindata"
+    elif label == "there and back":
+        orig_le = s["type"] in ("NiTriShape", "NiTriStrips")
+        if not orig_le:
+            # SE -> LE -> SE: either the first step lost them (NiSkinData without weights) or the second one
+            sd = s.get("sdw", [])
+            if sum(len(x) for x in sd) < sum(len(x) for x in s["weights"]):
+                return "C12-se2le-weights-need-skindata"
+            mid = None
+            for m in st.get("reload0", {}).get("d", {}).get("shapes", []):
+                if fingerprint(m) == fingerprint(s):
+                    mid = m
+            if mid is not None:
+                cov = covered_vertices(mid)
+                if bad and all(v not in cov for v in bad):
+                    return "C12-le2se-weights-from-partitions"
+    elif label.startswith("save+reload"):
+        return None
+    return None
+
+
+def evaluate_case(rep, case, d, crashed_back=False):
+    """evaluate one pipeline dump; returns (nspec, nknown, nontrivial)"""
+    nspec = nknown = 0
+    st = {s["stage"]: s for s in d.get("stages", [])}
+    fails, _, nontriv = evaluate_pipeline(case, d)
+    for what, det in fails:
+        kid = None
+        if "bone weights differ" in what or "bone list differs" in what:
+            label = what.split(":")[0]
+            a_name, b_name = {"conversion": ("orig", "conv0"), "there and back": ("orig", "reload1")}.get(label, ("conv0", "reload0"))
+            if a_name in st and b_name in st and "d" in st[b_name]:
+                pairs, _, _ = match_shapes(st[a_name]["d"], st[b_name]["d"])
+                for s, t in pairs:
+                    if s["name"] == det.get("shape") and not weights_close(weights_of(s), weights_of(t)):
+                        kid = classify_weights(st, label, s, t)
+                        break
+        elif "share a name" in what:
+            continue          # handled by check_names with the model
+        if kid:
+            rep.known_finding(kid, "%s | %s | %s" % (case[:160], what, json.dumps(det)[:160]))
+            nknown += 1
+        else:
+            det = dict(det)
+            det.update({"case": case, "family": FAM})
+            rep.violation(what, det)
+            nspec += 1
+    return nspec, nknown, nontriv
+
+
+def run(tier, seed, replay=None):
+    rep = vlib.Reporter(PID, tier, seed)
+    hygiene = vlib.coq_hygiene()
+    pr = vlib.coq_property(PID)
+    cov = vlib.proof_coverage(pr, hygiene)
+    if not pr["ok"] or hygiene:
+        rep.violation("proof obligations of Properties_C12.v not discharged: " + ",".join(pr["failed"] or hygiene),
+                      {"broken": "theorems " + ",".join(pr["failed"]), "log": pr["log"][-3000:], "hygiene": hygiene}, found_input=False)
+    impl_bin = vlib.build_oracle("asan")
+    model_bin = vlib.build_model_oracle()
+    rng = random.Random(seed)
+    if replay:
+        r = json.load(open(replay))
+        cl = [r["case"]] if "case" in r else [c["case"] for c in r.get("cases", [])]
+        files = [c for c in cl if c.startswith("file ")]
+        gens = [c for c in cl if c.startswith("gen ")]
+        renames = [c for c in cl if c.startswith("rename ")]
+    else:
+        corpus = []
+        try:
+            corpus = [l.strip() for l in open(vlib.ROOT + "/corpus/C12/cases.txt") if l.strip() and not l.startswith("#")]
+        except OSError:
+            pass
+        files, gens, renames = gen_cases(tier, rng)
+        gens = [c for c in corpus if c.startswith("gen ")] + gens
+        files = [c for c in corpus if c.startswith("file ")] + files
+        renames = [c for c in corpus if c.startswith("rename ")] + renames
+    pipe_cases = files + gens
+    impl = run_parallel(impl_bin, pipe_cases, 6, 900)
+    impl_rn = run_parallel(impl_bin, renames, 200, 300)
+    nspec = nknown = ncorr = 0
+    nontriv = set()
+    dist = {"file": len(files), "gen": len(gens), "rename": len(renames)}
+    model_cases, model_ctx = [], []
+    for (c, il, crash) in impl:
+        d = None
+        if crash is not None:
+            err = crash.get("stderr", "")
+            known_crash = False
+            if "NifFile.cpp:1736" in err and "OptimizeFor" in err:
+                # candidate: back-conversion of a model whose LE partitions have bone indices but no bones.
+                # Re-run without the back-conversion and look at the intermediate model.
+                rr = vlib.run_cases_robust(impl_bin, [FAM], [c + " back=0"], timeout_per_batch=600)[0]
+                if rr[2] is None and rr[1] and rr[1].startswith("I={"):
+                    d = json.loads(rr[1][2:])
+                    st = {s["stage"]: s for s in d.get("stages", [])}
+                    mid = st.get("reload0", {}).get("d")
+                    if mid and mid["ver"][2] == 83 and any(s["skinned"] and s.get("parts") and all(p["nb"] == 0 and p["hbi"] for p in s["parts"]) for s in mid["shapes"]):
+                        known_crash = True
+            if known_crash:
+                rep.known_finding("C12-back-conversion-crash-empty-partition-bones", c[:200])
+                nknown += 1
+            else:
+                rep.violation("conversion crashed (sanitizer/abort/timeout)", {"case": c, "family": FAM, "crash": crash})
+                nspec += 1
+                continue
+        else:
+            if not il or not il.startswith("I={"):
+                rep.violation("conversion oracle produced no dump", {"case": c, "family": FAM, "out": (il or "")[:200]}, found_input=False)
+                continue
+            d = json.loads(il[2:])
+        if "stages" not in d:
+            continue
+        a, b, nt = evaluate_case(rep, c, d)
+        nspec += a
+        nknown += b
+        if nt:
+            nontriv.add(c)
+        st = {s["stage"]: s for s in d.get("stages", [])}
+        if "orig" in st and "conv0" in st and not st["conv0"]["res"]["mismatch"]:
+            txt, before = build_tree(st["orig"]["d"])
+            _, after = build_tree(st["conv0"]["d"])
+            if txt is not None:
+                model_cases.append("names tree=" + txt)
+                model_ctx.append((c, before, after, "conversion"))
+    # RenameDuplicateShapes probes: the tree is known from the case line
+    for (c, il, crash) in impl_rn:
+        if crash is not None or not il:
+            rep.violation("RenameDuplicateShapes crashed", {"case": c, "family": FAM, "crash": crash})
+            nspec += 1
+            continue
+        kv = dict(t.split("=", 1) for t in c.split(" ")[1:] if "=" in t)
+        parents = [int(x) for x in kv.get("nodes", "").split(";") if x != ""]
+        kids = [k.split(":") for k in kv.get("kids", "").split(";") if k]
+        got = il.split("names=", 1)[1].split(",") if "names=" in il else []
+        nn = 1 + len(parents)
+        child_nodes = {i: [j + 1 for j, p in enumerate(parents) if (p if p <= j else 0) == i] for i in range(nn)}
+
+        def tree(i, names, path, per_node):
+            out, lst = [], []
+            for j in child_nodes[i]:
+                nm = "N%d" % j
+                out.append("n" + hexs(nm) + "(" + tree(j, names, path + (nm,), per_node) + ")")
+                lst.append(("n", nm))
+            for k, kd in enumerate(kids):
+                par = int(kd[0]) if int(kd[0]) < nn else 0
+                if par == i:
+                    nm = bytes.fromhex(names[k]).decode("latin-1")
+                    out.append(("s" if kd[1] == "s" else "n") + names[k] + ("" if kd[1] == "s" else "()"))
+                    lst.append(("s" if kd[1] == "s" else "n", nm))
+            per_node[path] = lst
+            return ",".join(out)
+
+        before, after = {}, {}
+        txt = tree(0, [kd[2] if len(kd) > 2 else "" for kd in kids], (), before)
+        if len(got) == len(kids):
+            tree(0, got, (), after)
+        model_cases.append("names tree=" + txt)
+        model_ctx.append((c, before, after, "rename"))
+        nontriv.add(c)
+    mres = vlib.run_cases_robust(model_bin, [FAM], model_cases, timeout_per_batch=900)
+    mism = []
+    for (mc, ml, mcrash), (c, before, after, tag) in zip(mres, model_ctx):
+        am = None
+        if mcrash is None and ml and ml.startswith("M=") and " " in ml:
+            am = parse_tree(ml[2:].split(" ", 1)[1])
+        elif mcrash is None and ml and ml.startswith("M=1") or (ml or "").startswith("M=0"):
+            am = parse_tree("")
+        else:
+            rep.violation("model oracle failed on a case", {"case": mc, "model": ml, "model_crash": mcrash}, found_input=False)
+            continue
+        a, b, k = check_names(rep, c, before, after, am, tag)
+        nspec += b
+        nknown += k
+        if a:
+            mism.append({"case": c, "impl": {"/".join(p): v for p, v in shape_names(after).items()}, "model": {"/".join(p): v for p, v in shape_names(am).items()}})
+    ncorr = len(mism)
+    if mism and not nspec:
+        rep.violation("correspondence convert (Coq model of RenameDuplicateShapes vs NifFile.cpp) no longer holds; theorems of Properties_C12.v no longer speak about the code",
+                      {"broken": "correspondence:convert", "family": FAM, "cases": mism[:10]}, found_input=False)
+    cov.update({
+        "evaluations": len(pipe_cases) + len(renames),
+        "distinct_nontrivial": len(nontriv),
+        "rule": "cases = every sample file x option combinations (headParts only for the Dynamic samples) + API-built LE/SE models (every flag set: uvs, normals, colours, white colours, skin, model-space shader, strips, LE partitions without weights / without bones, SE NiSkinData without weights, alpha, extra data, dynamic) + sibling name-clash models incl. [A_1,A,A] at depth 0/1/2 + random multi-shape models, each converted, saved, reloaded, converted back, saved, reloaded; + RenameDuplicateShapes probes (all child lists over 6 names up to length 3/4, random up to 8 children on up to 3 nodes). A pipeline case is non-trivial when the file is LE or SE and the conversion ran (no versionMismatch); every rename probe counts; distinct = distinct case lines",
+        "samples": [c[:300] for c in (files[:1] + gens[:2] + renames[:1])],
+        "input_distribution": dist,
+        "traces_validated_against_impl": len(model_cases),
+        "correspondence_mismatches": ncorr,
+        "spec_failures_on_impl": nspec,
+        "known_finding_hits": nknown,
+        "unproved": ["NifFile::OptimizeFor as a whole (skin partition conversion, weight transfer, shader flag edits, block deletion / sorting, save + reload): explored on the implementation, not modelled",
+                     "termination of the candidate search of RenameDuplicateShapes for arbitrary child lists (a pigeonhole argument): proved only under the hypotheses of C12_rename_distinct, where the first candidate is free"],
+        "trusted_base": vlib.BASE_TRUSTED + [
+            "level PARTIAL: the theorems cover renaming and list bookkeeping; the conversion as a whole is explored, not proved",
+            "Python evaluation of the property's clauses on the dumps (tools/props/c12.py): shape matching by vertex positions, triangle sets up to rotation, binary16 / byte tolerances, weights within 1e-4 or one binary16 ulp",
+            "harness/o_convert.cpp reads NiSkinData weights directly for NiTriShape (the public accessor binds a misaligned reference: known finding C15-ub-misaligned-skinweight-ref)"],
+        "exhaustive": False,
+    })
+    return rep.finish(cov, [
+        "headParts only for models made of dynamic shapes (an unskinned BSDynamicTriShape loses its positions on reload: outside the quantifier)",
+        "C12_rename_distinct: no unnamed shape child, no child already named X_<number> for a shape name X; shapes directly below the root or below a direct child node of the root",
+        "bookkeeping theorems: vertex and triangle arrays within the 16-bit counters of both formats",
+    ])
